@@ -679,10 +679,13 @@ def build_mha(c):
         b = g.const((0.2 * rng.standard_normal(shape)).astype(npd))
         return g.op("Add", t, b)
 
+    before = bool(c.get("preq")) and c.get("preqpos", "after") == "before"
+    if before:         # the scaling comes BEFORE the bias: q = (x @ Wq) * c + bq
+        q3 = g.op("Mul", q3, g.const(np.array(0.5, npd)))
     q3 = addbias(q3, c["bq"], S)
     k3 = addbias(k3, c["bk"], T)
     v3 = addbias(v3, c["bv"], T)
-    if c.get("preq"):  # a scaling of the 3-D query in front of the head split (absorbed by mha_scale.py)
+    if c.get("preq") and not before:  # a scaling of the 3-D query in front of the head split (absorbed by mha_scale.py)
         q3 = g.op("Mul", q3, g.const(np.array(0.5, npd)))
     shp = g.const(np.array([0, 0, H, Dh], np.int64)) if c.get("rs0", 1) else None
     q4 = g.op("Transpose", g.op("Reshape", q3, shp or g.const(np.array([B, S, H, Dh], np.int64))), perm=[0, 2, 1, 3])
@@ -1166,7 +1169,7 @@ def parse_lines(out, tag):
 FAM_BUDGET = {"rms": 50, "skipln": 40, "gelu": 40, "softmax": 12, "groupnorm": 10, "rotary": 60, "sdpa": 60, "mha": 110, "gqa": 60}
 
 
-STRATA = ("miss", "symdh", "sc", "sax", "eps", "sln", "form", "split", "mulswap", "axis", "up", "down", "ones", "rot", "inter", "kfmt", "proj", "past")
+STRATA = ("miss", "symdh", "preqpos", "sc", "sax", "eps", "sln", "form", "split", "mulswap", "axis", "up", "down", "ones", "rot", "inter", "kfmt", "proj", "past")
 
 
 def _round_robin(items):
